@@ -269,6 +269,11 @@ def analyse_flush(ctx: Ctx, f: FuncInfo, attr: str = "set_messages") -> Flush:
         for n in ctx.own_nodes(f):
             if isinstance(n, (ast.GeneratorExp, ast.ListComp, ast.SetComp)) and any(isinstance(x, ast.Call) and isinstance(x.func, ast.Attribute) and x.func.attr == "send" for x in ast.walk(n.elt)):
                 raise BatchedFlush(f"flush shape not recognised in {f.fq}: 0 sending loop(s) - the entries are sent as one batch (`{norm(n)[:60]}`)", n)
+        # ... or by a nested coroutine function whose calls are gathered / started as tasks
+        conc = [n for n in ctx.own_nodes(f) if isinstance(n, ast.Call) and norm(n.func).rsplit(".", 1)[-1] in ("gather", "create_task", "ensure_future", "wait", "as_completed", "TaskGroup")]
+        nested_send = [g_ for g_ in f.nested.values() if any(isinstance(x, ast.Call) and isinstance(x.func, ast.Attribute) and x.func.attr == "send" for x in ctx.own_nodes(g_))]
+        if conc and nested_send:
+            raise BatchedFlush(f"flush shape not recognised in {f.fq}: 0 sending loop(s) - the entries are released concurrently (`{norm(conc[0])[:60]}` over {nested_send[0].name}())", conc[0])
     if len(loops) != 1:
         raise AnalysisError(f"flush shape not recognised in {f.fq}: {len(loops)} sending loop(s)")
     lp = loops[0]
